@@ -2769,6 +2769,9 @@ coefficient_ensure_capacity(const lp_polynomial_context_t* ctx, coefficient_t* C
       }
       C->value.rec.capacity  = capacity;
       C->value.rec.size = capacity;
+    } else if (capacity > C->value.rec.size) {
+      // Enough room already: the entries in [size, capacity) are zero, make them part of the polynomial
+      C->value.rec.size = capacity;
     }
     break;
   }
